@@ -186,6 +186,35 @@ theorem C18_no_pragma_default (segs : List Seg) (h : wfList segs = true)
   simp only [processPragma_no_prefix _ hp]
   cases arg <;> simp [defaultLevel]
 
+/-- A first line `#$<p>` sets the level that line states (`pragmaLine`: `line[3:]` split on `,` and `=`),
+    whatever follows, as long as the next line is not a pragma line too; the argument still wins. -/
+theorem C18_pragma_line_sets_level (p : List Char) (segs : List Seg) (n : Nat) (arg : Option Nat)
+    (h : wfList (.comment ('$' :: p) true :: segs) = true)
+    (hlb : ∀ c ∈ p, isLineBreak c = false)
+    (hline : pragmaLine none ('#' :: '$' :: p) = .ok (some n))
+    (hbody : "#$".toList.isPrefixOf (expected segs).1 = false) :
+    ∃ r, mkRunner (assemble (.comment ('$' :: p) true :: segs)) arg = .ok r ∧ r.level = arg.getD n := by
+  unfold mkRunner
+  rw [C18_preprocess_segments _ h, expected_comment_cons]
+  simp only [List.cons_append]
+  have := processPragma_first_line p (expected segs).1 hlb (some n) hline hbody
+  simp only [List.cons_append] at this
+  simp only [this]
+  cases arg <;> simp
+
+example : wfList [.comment "$ data_values_nest_level = 4".toList true, .code "x = ".toList, .embed "001001".toList] = true ∧
+    (∀ c ∈ " data_values_nest_level = 4".toList, isLineBreak c = false) ∧
+    "#$".toList.isPrefixOf (expected [.code "x = ".toList, .embed "001001".toList]).1 = false := by decide
+
+/-- the documented pragma lines for the four documented levels -/
+example : pragmaLine none "#$ data_values_nest_level = 0".toList = .ok (some 0) := by decide
+example : pragmaLine none "#$ data_values_nest_level = 1".toList = .ok (some 1) := by decide
+example : pragmaLine none "#$ data_values_nest_level = 2".toList = .ok (some 2) := by decide
+example : pragmaLine none "#$ data_values_nest_level = 4".toList = .ok (some 4) := by decide
+example : pragmaLine none "#$ other = 1,  data_values_nest_level=4 ".toList = .ok (some 4) := by decide
+/-- quirk of `line[3:]`: without a character after `#$` the key is cut and the line is ignored -/
+example : pragmaLine none "#$data_values_nest_level = 4".toList = .ok none := by decide
+
 /-- the names bound for the script are pairwise distinct: the variables never collide with each
     other or with `PBK_BUFR_MESSAGE` / `PBK_FILENAME` -/
 theorem C18_bound_names_nodup (segs : List Seg) (h : wfList segs = true) :
